@@ -29,9 +29,13 @@ ASSUMPTIONS = {
 
 
 def cf1d(c, *, bounds=False, as_coords=True, lat_name='lat', lon_name='lon', ydim='lat', xdim='lon',
-         min_size=0, coord_kind='real', detect='units', extra=()):
+         min_size=0, coord_kind='real', detect='units', extra=(), leading=None):
     ny, nx = sym_size(c, 'ny', min_size), sym_size(c, 'nx', min_size)
     ds = XDataset()
+    if leading:
+        # a data variable stored ahead of the coordinates, e.g. temp(x, y): the order of Dataset.sizes then differs from (y, x)
+        lsz = {ydim: ny, xdim: nx}
+        add_var(ds, 'leading', tuple(leading), sym_array(c, 'leading', tuple(lsz[d] for d in leading), 'V'))
     lat_attrs = {'units': 'degrees_north'} if detect == 'units' else (
         {'standard_name': 'latitude'} if detect == 'standard_name' else {'axis': 'Y'})
     lon_attrs = {'units': 'degrees_east'} if detect == 'units' else (
@@ -109,10 +113,14 @@ SHOC_KINDS = {
 }
 
 
-def shoc_standard(c, *, as_coords=True, coord_kind='floatnan', extra=()):
+def shoc_standard(c, *, as_coords=True, coord_kind='floatnan', extra=(), leading=False):
     ny, nx = sym_size(c, 'ny', 0), sym_size(c, 'nx', 0)
     ds = XDataset()
     shapes, dims = {}, {}
+    if leading:
+        # data variables stored ahead of the coordinates with the i dimension first
+        for kind, (yn, xn, jd, idim, dj, di) in SHOC_KINDS.items():
+            add_var(ds, 'leading_' + kind, (idim, jd), sym_array(c, 'leading_' + kind, (nx + di, ny + dj), 'V'))
     for kind, (yn, xn, jd, idim, dj, di) in SHOC_KINDS.items():
         shp = (ny + dj, nx + di)
         shapes[kind] = shp
